@@ -15,6 +15,8 @@ What the emitter drops or replaces is counted in `self.report` and ends up in th
 Anything outside the supported subset raises ExtractionError (exit 2, never a violation).
 """
 import collections
+import os
+import sys
 import re
 
 from .cxxast import (ExtractionError, FUNC_KINDS, OPNAMES, body_of, params_of, targs_of, _const_value)
@@ -323,7 +325,9 @@ class Emitter:
                 fields.append(ft.decl(c["name"]))
         if not fields:
             fields.append("char xc_empty_")
-        text = "typedef struct %s {\n%s} %s;\n" % (cname, "".join("  %s;\n" % f for f in fields), cname)
+        selfref = any(re.search(r"\b%s\s*\*" % re.escape(cname), f) for f in fields)
+        text = ("typedef struct %s %s;\nstruct %s {\n%s};\n" % (cname, cname, cname, "".join("  %s;\n" % f for f in fields))) if selfref else \
+            "typedef struct %s {\n%s} %s;\n" % (cname, "".join("  %s;\n" % f for f in fields), cname)
         self.structs[cname] = text
         self.struct_state[cname] = "done"
         self.report["record layouts generated from FieldDecls"] += 1
@@ -1523,6 +1527,8 @@ class Emitter:
         # function_ref specialisation: lambda arguments
         if d is not None:
             q = self.ix.qual.get(rid, name)
+            if os.environ.get("XC_TRACE"):
+                sys.stderr.write("XC_TRACE call %s\n" % q)
             for suf, h in self.cfg.ext_q.items():
                 if q_matches(q, suf):
                     self.used_ext[suf] += 1
